@@ -140,8 +140,8 @@ class AncDriver(explore.Driver):
             self.edits = EMOD_EDITS
         elif family == "image":
             self.watch = ["volume", "bright_avg", "bright_bc_avg",
-                          "bright_perc_10", "inert_ratio_cvx",
-                          "inert_ratio_prnc", "tilt"]
+                          "bright_perc_10", "bright_perc_90",
+                          "inert_ratio_cvx", "inert_ratio_prnc", "tilt"]
             self.edits = [("imaging", "pixel size", [0.5], 0)]
         elif family == "ml":
             self.watch = ["ml_class"]
@@ -255,6 +255,7 @@ class AncDriver(explore.Driver):
                 st.cfg[sec].pop(key)
                 st.last_edit = key
             elif kind == "read":
+                st.read_log = getattr(st, "read_log", []) + [op[1]]
                 if st.child is not None:
                     # also through the child (fills the child's own cache)
                     try:
@@ -321,6 +322,15 @@ class AncDriver(explore.Driver):
             st.child.rejuvenate()
             targets.append(("child", st.child))
         feats = self.watch + ([TMPF] if st.tmp is not None else [])
+        # Features that the history read explicitly come first, latest
+        # first: features computed together (siblings of one method) are
+        # stored under the hash of the one that was asked for, so a sweep
+        # in a fixed order can refresh a stale sibling before looking at it
+        first = []
+        for f in reversed(getattr(st, "read_log", [])):
+            if f in feats and f not in first:
+                first.append(f)
+        feats = first + [f for f in feats if f not in first]
         for feat in feats:
             ra, rr = self._observe(ref, feat)
             for name, ds in targets:
